@@ -221,24 +221,43 @@ def proof_step(pid, rundir, tier='quick'):
 
 # ------------------------------------------------------------------ running both sides
 def _run_side(binary, lines, timeout):
+    """returns (complete output lines so far, status): status 0 = all done; 'timeout' or a non-zero exit code otherwise.
+    Both binaries print one line per case and flush it, so the number of complete lines identifies the culprit."""
     data = ('\n'.join(lines) + '\n').encode()
+    def big_stack():
+        # the extracted model uses non-tail-recursive list functions (length, app, ...): give it the stack it needs
+        import resource
+        try:
+            resource.setrlimit(resource.RLIMIT_STACK, (resource.RLIM_INFINITY, resource.RLIM_INFINITY))
+        except (ValueError, OSError):
+            pass
+    p = subprocess.Popen([binary], stdin=subprocess.PIPE, stdout=subprocess.PIPE, stderr=subprocess.DEVNULL, env=ENV,
+                         preexec_fn=big_stack if binary == RUNNER else None)
+    status = 0
     try:
-        p = subprocess.run([binary], input=data, stdout=subprocess.PIPE, stderr=subprocess.PIPE, timeout=timeout, env=ENV)
+        so, _ = p.communicate(data, timeout=timeout)
+        status = p.returncode
     except subprocess.TimeoutExpired:
-        return None, 'timeout'
-    outs = p.stdout.decode('utf-8', 'replace').split('\n')
+        p.kill()
+        so, _ = p.communicate()
+        status = 'timeout'
+    txt = so.decode('utf-8', 'replace')
+    outs = txt.split('\n')
     if outs and outs[-1] == '':
         outs.pop()
-    return outs, p.returncode
+    elif outs and not txt.endswith('\n'):
+        outs.pop()          # an incomplete last line belongs to the case that died
+    return outs, status
 
 
-CASE_TIMEOUT = int(os.environ.get('BEDV_CASE_TIMEOUT', '900'))
-FAST_ABORT = os.environ.get('BEDV_FAST_ABORT') == '1'      # bin/mutants: a shard that hangs is not re-run case by case
+CASE_TIMEOUT = int(os.environ.get('BEDV_CASE_TIMEOUT', '240'))
+FAST_ABORT = os.environ.get('BEDV_FAST_ABORT') == '1'      # bin/mutants: after a hang the rest of the shard is not re-run
 
 
 def run_side(binary, cases, timeout=None, shards=NPROC):
-    """Runs cases through a line-oriented binary, sharded; a shard that dies (abort, stack overflow)
-    is re-run case by case so that the culprit is identified: its result is `(abort <rc>)`."""
+    """Runs cases through a line-oriented binary, sharded.  When a shard dies (abort, stack overflow) or hangs, the case
+    after the last complete output line is the culprit: its result is `(abort <rc>)` / `(abort timeout)` and the run
+    resumes with the cases after it."""
     if not cases:
         return []
     timeout = timeout or CASE_TIMEOUT
@@ -246,24 +265,23 @@ def run_side(binary, cases, timeout=None, shards=NPROC):
     idxs = [list(range(i, len(cases), k)) for i in range(k)]
     results = [None] * len(cases)
     def work(ix):
-        lines = [cases[i] for i in ix]
-        outs, rc = _run_side(binary, lines, timeout)
-        if outs is not None and len(outs) == len(lines) and rc == 0:
-            for i, o in zip(ix, outs):
+        todo = list(ix)
+        hangs = 0
+        while todo:
+            outs, st = _run_side(binary, [cases[i] for i in todo], timeout if hangs == 0 else min(timeout, 30))
+            n = min(len(outs), len(todo))
+            for i, o in zip(todo[:n], outs[:n]):
                 results[i] = o
-            return
-        if FAST_ABORT and outs is None:
-            for i in ix:
-                results[i] = '(abort timeout)'
-            return
-        for i in ix:     # isolate
-            o1, rc1 = _run_side(binary, [cases[i]], timeout)
-            if o1 is not None and len(o1) == 1 and rc1 == 0:
-                results[i] = o1[0]
-            elif o1 is None:
-                results[i] = '(abort timeout)'
-            else:
-                results[i] = '(abort %s)' % rc1
+            if n == len(todo):
+                return
+            results[todo[n]] = '(abort %s)' % st
+            todo = todo[n + 1:]
+            if st == 'timeout':
+                hangs += 1
+                if FAST_ABORT or hangs >= 3:
+                    for i in todo:
+                        results[i] = '(abort timeout)'
+                    return
     with ThreadPoolExecutor(max_workers=k) as ex:
         list(ex.map(work, idxs))
     return results
@@ -458,6 +476,23 @@ def _main(prop, pid, tier, seed, replay, rundir, t0):
             notes.append('model runner problem on case %d: %s' % (i, model[i][:200]))
         if verdicts[i]:
             mism.append(i)
+    # thorough tier: the same cases once more through a RELEASE build of the harness (no overflow checks, optimised):
+    # silent wrap-around and optimisation-dependent behaviour.  Cases on which the model itself says Panic (a guard of the
+    # theorem, e.g. cov A + cov B above the type maximum) are skipped: there a release build wraps by design.
+    rel_mism = []
+    if tier == 'thorough' and not replay and os.environ.get('BEDV_NO_RELEASE') != '1':
+        okr, outr = build_harness(release=True)
+        if not okr:
+            notes.append('release harness did not build: ' + outr[-300:])
+        else:
+            idx_r = [i for i in range(len(cases)) if 'panic' not in model[i] and i not in mism]
+            impl_r = run_side(HARNESS_REL, [texts[i] for i in idx_r])
+            vr = judge(prop, [texts[i] for i in idx_r], impl_r, [model[i] for i in idx_r])
+            for i, o, bad in zip(idx_r, impl_r, vr):
+                if bad:
+                    rel_mism.append(i); impl[i] = o
+            notes.append('release profile: %d cases re-run, %d mismatches' % (len(idx_r), len(rel_mism)))
+            mism = mism + rel_mism
     if replay:
         for i, c in enumerate(cases):
             print('case : ' + c.text)
@@ -480,8 +515,9 @@ def _main(prop, pid, tier, seed, replay, rundir, t0):
         if reported >= 3 or attempts >= 12:
             continue
         attempts += 1
+        hb = HARNESS_REL if i in rel_mism else HARNESS
         def still(t):
-            a = run_side(HARNESS, [t], shards=1)[0]
+            a = run_side(hb, [t], shards=1)[0]
             b = run_side(RUNNER, [t], shards=1)[0]
             if 'glue-error' in a or 'glue-error' in b:
                 return False
@@ -495,7 +531,7 @@ def _main(prop, pid, tier, seed, replay, rundir, t0):
         if small in seen:
             continue
         seen.add(small)
-        si = run_side(HARNESS, [small], shards=1)[0]
+        si = run_side(hb, [small], shards=1)[0]
         sm = run_side(RUNNER, [small], shards=1)[0]
         fclass = prop.classify(small, si, sm) if hasattr(prop, 'classify') else ''
         hit = [txt for (cre, txt) in kf if re.fullmatch(cre, fclass or '')]
@@ -505,7 +541,7 @@ def _main(prop, pid, tier, seed, replay, rundir, t0):
         expl = prop.explain(small, si, sm) if hasattr(prop, 'explain') else ''
         path = write_replay(pid, '%d' % (reported + 1), dict(
             property=pid, tier=tier, seed=seed, kind='correspondence-mismatch', case=small, original_case=c.text,
-            impl_output=si, model_output=sm, failure_class=fclass, failing_clause=expl,
+            impl_output=si, model_output=sm, failure_class=fclass, failing_clause=expl, profile=('release' if i in rel_mism else 'debug'),
             how_to_replay='bin/check %s --replay <this file>' % pid,
             theorem=getattr(prop, 'UNIQUE_NOTE', '')))
         suffix = ''
@@ -545,7 +581,7 @@ def finish(prop, pid, tier, seed, t0, pr, cases, mism, violations, known_lines, 
             rule=getattr(prop, 'RULE', ''), samples=samples,
             traces_validated_against_impl=len(cases), disagreements_checked=len(mism),
             input_distribution=dist, source_changed=[n for n in notes if n.startswith('source_changed')], exhaustive=bool(getattr(prop, 'EXHAUSTIVE', {}).get(tier, False)),
-            profile='debug (overflow checks on; bed-utils opt-level 0)', notes=notes[:20]),
+            profile='debug (unoptimised, overflow checks on)' + ('; thorough tier also release' if tier == 'thorough' else ''), notes=notes[:20]),
         assumptions=getattr(prop, 'ASSUMPTIONS', []),
         wall_s=round(time.time() - t0, 2), violations=len(violations))
     if pr['obligations'] == 0:
